@@ -139,3 +139,17 @@ contract(L + 'LogicalLinkController.dispatch', 'C17',
 contract(L + 'LogicalLinkController._bind_by_none', 'C17', dict(self=llc(), socket=new_socket()),
          name='C17/sentinel.bind-lowest-plus-one', expect_fail=True,
          ensures=[('post', 'lowest_free(old(self.sap), 33, 64) == socket.addr')], raises={ERR: []})
+# closing one of two sockets bound at an address keeps the address (and the other socket) in the table
+contract(L + 'LogicalLinkController.close', 'C17',
+         dict(self=llc(sap=LazyList([Opt(Obj(L + 'ServiceAccessPoint', _partial=False, addr=i, llc=Ref('self'),
+                                             sock_list=Fixed([Ref('socket'), Obj(T + 'DataLinkConnection', addr=i)],
+                                                             'deque'),
+                                             send_list=Fixed([], 'deque'))) for i in range(64)])),
+              socket=tco('DataLinkConnection', addr=Int(0, 63), state=state(2), send_queue=Fixed([], 'deque'),
+                         recv_queue=Fixed([], 'deque'), **DLC_EXTRA)),
+         name='C17/close.one-of-two', requires=['self.sap[socket.addr] is not None'],
+         ensures=[('post.kept', 'self.sap[old(socket.addr)] is not None and '
+                                'len(self.sap[old(socket.addr)].sock_list) == 1 and '
+                                'self.sap[old(socket.addr)].sock_list[0] is not socket'),
+                  ('post.frame', 'unchanged_except(self.sap, old(self.sap), -1)')],
+         raises={})
